@@ -31,7 +31,7 @@ TRAPS = ["²", "³", "①", "٣", "५", "Ⅷ", "½", "\x0b", "\x0c", "\x1c", "\
 TRAP_LINES = ["². x", "1³) x", "①.", "٣. x", "a\n². x", "- ²", "\x1c# h", "\xa0- x", "\u2028> q", "#\xa0h", "```\x0bpy", "[İ]: /u",
               "[i̇]", "[ß]: /u", "[SS]", "\x85", "1.\u2029x", "&#x85;", "\x0c---", "~~~\u3000x"]
 BLOCK_LINES = [
-    "", " ", "  ", "\t", "# h", "## h ##", "####### x", "#", "#\t", "h\n===", "h\n---", "***", "---", "___", "* * *",
+    "", " ", "  ", "\t", "# h", "## h ##", "####### x", "#######", "######", "####### ", "########", "#", "#\t", "h\n===", "h\n---", "***", "---", "___", "* * *",
     " - - -", "    code", "\tcode", "     more", "```", "```py", "``` a\"b<c>", "~~~", "~~~~", "```\nx\n```", "~~~ x\n~~~",
     "<div>", "</div>", "<pre>", "</pre>", "<!-- c", "-->", "<?php", "?>", "<!DOCTYPE x>", "<![CDATA[", "]]>",
     "<script>", "</script>", "<b>x</b>", "<hr/>", "> q", ">q", ">", "> > qq", ">\t>\tx", "  > x", "- i", "* i", "+ i", "-", "- ",
